@@ -15,6 +15,12 @@ fn one_write(l: usize, n: usize, src: &[u8], rec: &mut Rec) -> Option<(usize, us
         }
     };
     let mut buf = vec![0u8; n];
+    if (l + n) % 3 == 0 {
+        // the caller asked about some other buffer first: an answer is not an order
+        if let BodySender::Flow(f) = &mut s {
+            let _ = f.calculate_max_input(if l % 2 == 0 { 20 } else { n / 2 });
+        }
+    }
     rec.call();
     hookmon::arm(4 * (l as u64 + n as u64) + 64);
     let r = s.write(&src[..l], &mut buf);
@@ -99,6 +105,14 @@ fn whole_body_loop(n: usize, total: usize, chunked: bool, rec: &mut Rec) {
     let mut pos = 0usize;
     let mut iters = 0usize;
     let mut buf = vec![0u8; n];
+    if chunked && (n + total) % 4 == 1 {
+        // a finishing write that finds no room (0..4 bytes) is not a finish: the body goes on as if it had
+        // not happened
+        let mut tiny = vec![0u8; n % 5];
+        let r = s.write(&[], &mut tiny);
+        rec.ev(|| format!("finishing write into {} bytes before the loop -> {:?}", tiny.len(), r));
+        rec.cov("loop/after-a-finishing-write-without-room");
+    }
     while pos < total {
         iters += 1;
         if iters > total + 1 {
